@@ -142,14 +142,14 @@ def work(t):
   confirmed = None
   for rr in P.results:
     rr = dict(rr)
-    if rr['status'] == 'sat' and rr.get('kind', 'core') == 'core':
+    if rr['status'] in ('sat', 'unknown') and rr.get('kind', 'core') == 'core':
       if confirmed is None:
         confirmed = concrete(t) or False
       if confirmed:
         rr['status'] = 'violation'
         path = write_replay(PID, dict(property=PID, task=t, observed=confirmed))
         viol.append(dict(key=f"C16:{t['algo']}:{rr['name'].split('|')[-1].split(' ')[0]}", what=confirmed, replay=path))
-      else:
+      elif rr['status'] == 'sat':
         rr['status'] = 'spurious'
         rr['note'] = 'candidate counterexample did not reproduce on the real code'
     res.append(rr)
